@@ -513,7 +513,7 @@ void verif_enumerate(verif::Ctx &ctx)
     const bool th = ctx.thorough();
     struct Space { std::string programs; char shape; std::vector<std::string> a_ops, b_ops; int cycles; };
     std::vector<Space> spaces = {
-        {"i2nsc", 't', {"", "v1", "v2"}, {"", "v5", "v6"}, th ? 5 : 4},
+        {"i2nsc", 't', {"", "v1", "v2"}, {"", "v1", "v6"}, th ? 5 : 4},   // the two targets can hold EQUAL values (a retarget between them is still a tick)
         {"i2nsc", 's', {"", "+1", "-1", "+2"}, {"", "+2", "+3", "-2"}, th ? 4 : 3},
         {"i2ns", 'd', {"", "s1=5", "e1", "s2=6"}, {"", "s2=7", "s3=8", "e2"}, th ? 4 : 3},
         {"i", 's', {"", "+1", "-1"}, {"", "+1", "+2"}, th ? 5 : 4},
